@@ -53,8 +53,12 @@ Clauses(pre, e) ==
   ]
 
 SeedClauses(s) == [
+  \* (for the contact point the library has an estimate of its own when the
+  \* model gives none: only the seeding by a model value is owed there)
   C18_Seed |-> \A p \in DOMAIN s.anc :
-                  s.init[p] = SeedOf(s.anc[p])
+                  IF p = "contact_point"
+                  THEN (s.anc[p] = "val") => (s.init[p] = "anc")
+                  ELSE s.init[p] = SeedOf(s.anc[p])
   ]
 
 Report ==
